@@ -278,7 +278,8 @@ def wire_check(seed, tier, wd):
             for k in range(nreq):
                 rid = rng.choice([k + 1, "r%d" % k])
                 ids.append(rid)
-                payload = rng.choice(["", "0a0203e8040101", "120203e80401011000"])
+                # pass-through payloads, well-formed and not (truncated prefixes, over-stated lengths, a few bytes only)
+                payload = rng.choice(["", "0a0203e8040101", "120203e80401011000", "fd", "fe0000", "0501ff", "05fd00", "ff"])
                 chunks = [rng.choice([1, 2, 3, 7, 50, 400]) for _ in range(rng.randint(0, 40))]
                 pl.send(htlc_request(rid, payload, htlc_id=k), chunks)
                 if rng.random() < 0.3:
@@ -730,6 +731,11 @@ def burst_check(seed, tier, wd):
             A = T["A"]; need = A + A * 5000 // 10**6
             share = need // nparts
             ids = []
+            # a few calls whose payload cannot be parsed at all (very short, truncated): each still gets a hook result
+            for k, bad in enumerate(("fd", "fe0000", "0501ff", "05fd00")):
+                rid = "m%d" % k
+                ids.append(rid)
+                pl.send(htlc_request(rid, bad, htlc_id=1000 + k))
             for k in range(nparts):
                 amt = share if k < nparts - 1 else need - share * (nparts - 1)
                 rid = "p%d" % k
